@@ -3714,13 +3714,16 @@ def autoref_sibling_model(P, R):
                 args_b = [order.index(args[0])] + args[1:]
             what = (f'order {order}: {name}(' + ', '.join(
                 repr(x) for x in args) + ')')
+            # (a case the interpreter cannot follow is reported as
+            # undecided; it was still attempted, so it counts for the
+            # floor: the anchor is there)
+            n += 1
             try:
                 out_a = run(fa, args, 'A', wrapper)
                 out_b = run(fb, args_b, 'B', obj_b)
             except interp.Unknown as e:
                 undecided.setdefault(name, str(e))
                 continue
-            n += 1
             if out_a[0] != out_b[0] or (
                     out_a[0] == 'raise' and out_a[1] != out_b[1]):
                 problems.setdefault((fa, 'outcome'), (
